@@ -11,6 +11,9 @@ import (
 // TName: the innermost type name of an ast.Type (what (*ast.Type).Name returns).
 func TName(t *ast.Type) string { panic("ghost") }
 
+// FieldNamed: what ast.FieldList.ForName returns.
+func FieldNamed(l ast.FieldList, name string) *ast.FieldDefinition { panic("ghost") }
+
 //@ assume-nonnil-elems *ast.Definition
 //@ assume-nonnil-elems *ast.FieldDefinition
 //@ assume-nonnil-elems *ast.ArgumentDefinition
@@ -153,11 +156,59 @@ func TName(t *ast.Type) string { panic("ghost") }
 //@ loop 0 invariant[owners] forallT(T, string, forallT(n, string, routed(tm, T, n) ==> exists(j, 0, it + 1, route(tm, T, n) == inputs[j].URL))) @using owners, frame-fields, tm
 //@ end
 
+// FName: the result of ast.FieldList.ForName (nil when there is no field of that name).
+//@ extern github.com/vektah/gqlparser/v2/ast (FieldList).ForName
+//@ ensures result == FieldNamed(l, name)
+//@ modifies fresh
+//@ end
+
+//@ define wfDefs(m map[string]*ast.Definition) bool = forallT(k, string, has(m, k) ==> m[k] != nil)
+//@ define implementsNode(d *ast.Definition) bool = exists(j, 0, len(d.Interfaces), d.Interfaces[j] == "Node")
+
+//@ func isImplementsNodeInterface
+//@ props C05 C03
+//@ requires d != nil
+//@ ensures[spec] result == implementsNode(d)
+//@ modifies fresh
+//@ end
+
+//@ func mergeRootObjects
+//@ props C05 C03
+//@ returns res, err
+//@ requires a != nil && b != nil
+//@ ensures[res] err == nil ==> res != nil && fresh(res)
+//@ ensures[overlap-rejected] err == nil ==> forall(i, 0, len(b.Fields), !hasprefix(b.Fields[i].Name, "__") && !nodeEntry(b.Fields[i]) ==> FieldNamed(a.Fields, b.Fields[i].Name) == nil) @props C05
+//@ modifies-assumed fresh
+//@ loop 0 invariant[checked] forall(i, 0, it, !hasprefix(b.Fields[i].Name, "__") && !nodeEntry(b.Fields[i]) ==> FieldNamed(a.Fields, b.Fields[i].Name) == nil)
+//@ end
+
+//@ func mergeCustomObjects
+//@ props C05 C03
+//@ returns res, err
+//@ requires a != nil && b != nil
+//@ ensures[res] err == nil ==> res != nil
+//@ modifies-assumed fresh
+//@ end
+
 //@ func mergeTypes
 //@ props C03 C05
 //@ returns result, err
-//@ ensures[values] err == nil ==> result != nil && forallT(k, string, has(result, k) ==> result[k] != nil)
+//@ requires wfDefs(a) && wfDefs(b) && as != nil && bs != nil
+//@ ensures[values] err == nil ==> result != nil && wfDefs(result)
+//@ ensures[keys-a] err == nil ==> forallT(k, string, has(a, k) ==> has(result, k)) @props C03
+//@ ensures[keys-b] err == nil ==> forallT(k, string, has(b, k) && !hasprefix(k, "__") ==> has(result, k)) @props C03
+//@ ensures[keys-only] err == nil ==> forallT(k, string, has(result, k) ==> has(a, k) || (has(b, k) && !hasprefix(k, "__"))) @props C03
+//@ ensures[kind-clash-rejected] err == nil ==> forallT(k, string, has(a, k) && has(b, k) && !hasprefix(k, "__") && b[k].Name != "Node" ==> a[k].Kind == b[k].Kind) @props C05
+//@ ensures[node-mismatch-rejected] err == nil ==> forallT(k, string, has(a, k) && has(b, k) && !hasprefix(k, "__") && b[k].Name != "Node" && b[k].Kind != ast.Scalar && b[k].Kind != ast.Union ==> implementsNode(a[k]) == implementsNode(b[k])) @props C05
 //@ modifies-assumed fresh
+//@ loop 0 invariant[copy] result != nil && fresh(result) && wfDefs(result) && forallT(k, string, has(result, k) == seen(k)) && forallT(k, string, has(result, k) ==> fresh(result[k]) && result[k].Kind == a[k].Kind && result[k].Name == a[k].Name && sameslice(result[k].Interfaces, a[k].Interfaces))
+//@ loop 1 invariant[wf] result != nil && fresh(result) && wfDefs(result)
+//@ loop 1 invariant[keys-a] forallT(k, string, has(a, k) ==> has(result, k))
+//@ loop 1 invariant[keys-b] forallT(k, string, seen(k) && !hasprefix(k, "__") ==> has(result, k))
+//@ loop 1 invariant[keys-only] forallT(k, string, has(result, k) ==> has(a, k) || (has(b, k) && seen(k) && !hasprefix(k, "__")))
+//@ loop 1 invariant[kinds] forallT(k, string, seen(k) && has(a, k) && !hasprefix(k, "__") && b[k].Name != "Node" ==> a[k].Kind == b[k].Kind)
+//@ loop 1 invariant[nodes] forallT(k, string, seen(k) && has(a, k) && !hasprefix(k, "__") && b[k].Name != "Node" && b[k].Kind != ast.Scalar && b[k].Kind != ast.Union ==> implementsNode(a[k]) == implementsNode(b[k]))
+//@ loop 1 invariant[akeep] forallT(k, string, has(a, k) && !seen(k) ==> fresh(result[k]) && result[k].Kind == a[k].Kind && sameslice(result[k].Interfaces, a[k].Interfaces))
 //@ end
 
 //@ func mergeImplements
